@@ -172,6 +172,21 @@ func runC05(r *Run) {
 			if applyCall == nil || hookCall == nil {
 				r.Bad("R2", fnID(at)+"#calls", where, "ApplyMessageWithConfig / PostTxProcessing call not found in ApplyTransaction")
 			} else {
+				// the cache context is created on every path to the message, except over the edge on which k.hooks == nil
+				_, hooksNil := guardPassEdges(at, func(cond ssa.Value) (bool, bool) {
+					b, ok := cond.(*ssa.BinOp)
+					if !ok || (b.Op != token.NEQ && b.Op != token.EQL) || !isNilConst(b.Y) {
+						return false, false
+					}
+					if !backSlice(b.X).HasField("Keeper", "hooks") {
+						return false, false
+					}
+					return b.Op == token.NEQ, true
+				})
+				isCache := func(in ssa.Instruction) bool { return in == ssa.Instruction(cache) }
+				wc := PathQuery{Fn: at, Block: isCache, Target: func(in ssa.Instruction) bool { return in == ssa.Instruction(applyCall) }, DelEdge: edgeSet(hooksNil)}.Search()
+				r.Check(wc == nil, "R2", fnID(at)+"#cache-ctx-always", P.Pos(instrPos(applyCall)), "CacheContext() precedes the message on every path except hooks == nil (which R3 excludes)",
+					"the message can be executed without the whole-transaction cache context for a reason other than `k.hooks == nil`: a transaction that fails later keeps the Cosmos-side writes its precompile calls made", P.witness(wc)...)
 				r.Check(fromCache(argN(applyCall, 0), 0), "R2", fnID(at)+"#message-on-cache-ctx", P.Pos(instrPos(applyCall)), "message executes on the cache context", "ApplyMessageWithConfig does not receive the context returned by CacheContext(): a failed transaction's writes land in the committed context")
 				r.Check(fromCache(argN(hookCall, 0), 0), "R2", fnID(at)+"#hooks-on-cache-ctx", P.Pos(instrPos(hookCall)), "hooks execute on the cache context", "PostTxProcessing does not receive the cache context: a failing hook cannot be rolled back together with the transaction")
 				// commit() call sites: dynamic calls whose callee value derives from Extract #1
@@ -501,6 +516,25 @@ func journalDiscipline(r *Run, entries []*types.Named) {
 		})
 	}
 	r.Floor("R4", "writes to revertible StateDB state", nWrites, 20)
+	// dirty/origin/transient storage entries are never removed: Commit may already have flushed a dirty slot
+	// in the middle of the transaction (precompiles flush), so dropping it later leaves the flushed value in the store
+	nDel := 0
+	for _, fn := range fns {
+		eachInstr(fn, func(in ssa.Instruction) {
+			c, ok := in.(ssa.CallInstruction)
+			if !ok || callInfo(c).Builtin != "delete" {
+				return
+			}
+			nDel++
+			sl := backSlice(c.Common().Args[0])
+			for _, f := range []string{"dirtyStorage", "originStorage", "transientStorage"} {
+				if sl.HasField("stateObject", f) {
+					r.Bad("R4", fnID(fn)+"#delete-"+f, P.Pos(instrPos(in)), "an entry is removed from stateObject."+f+": slots flushed by a mid-transaction Commit (every precompile call flushes) could no longer be corrected by the final Commit, so a write made in a reverted frame would survive")
+				}
+			}
+		})
+	}
+	r.Count("R4 delete() calls in x/evm/statedb", nDel)
 	// each entry's Revert must read its own recorded fields (restores from the recorded previous value)
 	nE := 0
 	names := []string{}
